@@ -171,14 +171,14 @@ Proof.
   rewrite !all_true_get. intros H q Hq. rewrite set_true_length in Hq. apply get_set_true_mono. apply H. exact Hq.
 Qed.
 
-Record J (waits : bool) (s : proc) : Prop := {
+Record J (waits fwaits : bool) (s : proc) : Prop := {
   j_len : length (aggr_closed s) = length (pool_done s);
   j_done : forall q, get q (pool_done s) = true -> get q (aggr_closed s) = true;
   j_ok : run_ok s = true -> all_true (pool_done s) = true;
-  j_exit : forall r, exited s = Some r -> orderly r = true -> waits = true -> all_true (pool_done s) = true
+  j_exit : forall r, exited s = Some r -> orderly r = true -> waits = true -> fwaits = true -> all_true (pool_done s) = true
 }.
 
-Lemma J_init waits n : J waits (proc_init n).
+Lemma J_init waits fwaits n : J waits fwaits (proc_init n).
 Proof.
   constructor; cbn; try discriminate.
   - rewrite !repeat_length. reflexivity.
@@ -187,7 +187,7 @@ Qed.
 
 Ltac simp_pr := cbn [sig cancelled run_ret run_ok run_failed pcancel aggr_closed pool_done timed_out sig2 exited].
 
-Lemma cstep_J waits s e s' : J waits s -> cstep waits s e = Some s' -> J waits s'.
+Lemma cstep_J waits fwaits s e s' : J waits fwaits s -> cstep waits fwaits s e = Some s' -> J waits fwaits s'.
 Proof.
   intros [I1 I2 I3 I4] H. unfold cstep in H. destruct (exited s) eqn:Ex; [discriminate|].
   destruct e as [| | | | |p|p|p| | |r].
@@ -223,39 +223,52 @@ Proof.
   - (* CExit *)
     match type of H with (if ?c then _ else _) = _ => destruct c eqn:Ec; [|discriminate] end.
     injection H as <-. constructor; simp_pr; try assumption.
-    intros r' E Ho Hw. injection E as <-. destruct r; cbn in Ho; try discriminate.
+    intros r' E Ho Hw Hf. injection E as <-. destruct r; cbn in Ho; try discriminate.
     + apply I3. exact Ec.
     + rewrite Hw in Ec. repeat (apply andb_prop in Ec; destruct Ec as [Ec ?]). assumption.
-    + repeat (apply andb_prop in Ec; destruct Ec as [Ec ?]). assumption.
+    + rewrite Hf in Ec. repeat (apply andb_prop in Ec; destruct Ec as [Ec ?]). assumption.
 Qed.
 
-Lemma crun_J waits h : forall s s', J waits s -> crun waits s h = Some s' -> J waits s'.
+Lemma crun_J waits fwaits h : forall s s', J waits fwaits s -> crun waits fwaits s h = Some s' -> J waits fwaits s'.
 Proof.
   induction h as [|e r IH]; intros s s' I H; cbn [crun] in H.
   - injection H as <-. exact I.
-  - destruct (cstep waits s e) as [s1|] eqn:E; [|discriminate].
+  - destruct (cstep waits fwaits s e) as [s1|] eqn:E; [|discriminate].
     eapply IH; [|exact H]. eapply cstep_J; eassumption.
 Qed.
 
 (* C06_signal_flush, for a cli that waits for the engine's tasks *)
 Theorem signal_flush_waiting pools h s r :
-  crun true (proc_init pools) h = Some s -> exited s = Some r -> orderly r = true ->
+  crun true true (proc_init pools) h = Some s -> exited s = Some r -> orderly r = true ->
   all_true (aggr_closed s) = true.
 Proof.
-  intros H Ex Ho. pose proof (crun_J true h _ _ (J_init true pools) H) as [I1 I2 I3 I4].
-  pose proof (I4 r Ex Ho eq_refl) as Hd.
+  intros H Ex Ho. pose proof (crun_J true true h _ _ (J_init true true pools) H) as [I1 I2 I3 I4].
+  pose proof (I4 r Ex Ho eq_refl eq_refl) as Hd.
   rewrite all_true_get in *. intros q Hq. apply I2. apply Hd. rewrite <- I1. exact Hq.
 Qed.
 
 (* the same statement for a cli that exits as soon as Run returned: false *)
 Lemma signal_flush_not_waiting_refuted :
-  exists h s, crun false (proc_init 1) h = Some s /\ exited s = Some ExInterrupted /\ all_true (aggr_closed s) = false.
+  exists h s, crun false true (proc_init 1) h = Some s /\ exited s = Some ExInterrupted /\ all_true (aggr_closed s) = false.
 Proof. exists [CSignal; CCancel; CRunReturns; CExit ExInterrupted]. eexists. split; [vm_compute; reflexivity|]. split; reflexivity. Qed.
 
 (* an orderly exit after a signal exists (the guard of the theorem is not vacuous) *)
 Lemma signal_orderly_exit_exists :
-  exists h s, crun true (proc_init 2) h = Some s /\ exited s = Some ExInterrupted /\ all_true (aggr_closed s) = true.
+  exists h s, crun true true (proc_init 2) h = Some s /\ exited s = Some ExInterrupted /\ all_true (aggr_closed s) = true.
 Proof.
   exists [CSignal; CCancel; CAggrClosed 1; CRunReturns; CAggrClosed 0; CPoolDone 0; CPoolDone 1; CExit ExInterrupted].
+  eexists. split; [vm_compute; reflexivity|]. split; reflexivity.
+Qed.
+
+(* a failed run: the cli that does not wait in the failed-run branch can exit before the close *)
+Lemma failed_run_not_waiting_refuted :
+  exists h s, crun true false (proc_init 1) h = Some s /\ exited s = Some ExFailed /\ all_true (aggr_closed s) = false.
+Proof. exists [CRunFails; CCancel; CExit ExFailed]. eexists. split; [vm_compute; reflexivity|]. split; reflexivity. Qed.
+
+(* an orderly exit of a failed run exists *)
+Lemma failed_run_orderly_exit_exists :
+  exists h s, crun true true (proc_init 2) h = Some s /\ exited s = Some ExFailed /\ all_true (aggr_closed s) = true.
+Proof.
+  exists [CInstancesDone 1; CRunFails; CCancel; CAggrClosed 0; CAggrClosed 1; CPoolDone 1; CPoolDone 0; CExit ExFailed].
   eexists. split; [vm_compute; reflexivity|]. split; reflexivity.
 Qed.
